@@ -1030,6 +1030,13 @@ def emit_valget_v(path):
          'From UbxGen Require Import CfgKernels.',
          'Open Scope N_scope.', '']
     L += f.record()
+    # the role of a local, whatever it is called: the one that receives the rest of the payload from super().unpack()
+    work = [st.targets[0].id for st in ast.walk(f.fn) if isinstance(st, ast.Assign) and len(st.targets) == 1
+            and isinstance(st.targets[0], ast.Name) and isinstance(st.value, ast.Call) and isinstance(st.value.func, ast.Attribute)
+            and st.value.func.attr == 'unpack' and isinstance(st.value.func.value, ast.Call) and dotted(st.value.func.value.func) == 'super']
+    if len(work) != 1:
+        raise TranslateError('UbxCfgValGet.unpack: expected exactly one local assigned from super().unpack()')
+    L.append(f'Notation vunpack__ROLE_work := {f.fld(work[0])}.')
     L += ['', 'Section G.', 'Context {E : Type} (B : backend E) (sk : list N).', 'Notation fres := (@fres E).', '']
     L.append(f.emit())
     L += ['', 'End G.']
